@@ -159,7 +159,9 @@ def oracleLineC14 (toks out : List String) : String :=
         else if res == "err:notInTrialParameters" ∧ unconsumed then "known C14-parameter-not-consumed-by-template"
         else if res == "err:illegalMeta" ∧ metaUnresolvable then "known C14-unresolvable-trial-metadata-reference"
         else "fail admitted-experiment-cannot-instantiate-its-template:" ++ res)
-      if !budgetOk then "fail admitted-budget-inconsistent"
+      if e.algorithm.isSome && !e.algoKnown then "fail admitted-with-an-algorithm-katib-config-does-not-define"
+      else if e.earlyStopping.isSome && !e.esKnown then "fail admitted-with-an-early-stopping-algorithm-katib-config-does-not-define"
+      else if !budgetOk then "fail admitted-budget-inconsistent"
       else if ptr.toList.any (· == '0') then "fail admitted-with-nil-pointer:" ++ ptr
       else if !badNames.isEmpty then (if !algoOk algo then "known C14-algorithm-name-unconstrained" else "fail admitted-name-yields-illegal-resource-name")
       else if runs.length != b.assignments.length then "fail battery-incomplete"
